@@ -104,18 +104,49 @@ def main(tier, replay):
         "reference configuration, set_up: bitwise equal to a fresh object; (v) value differences between two images against sum of logs - sensitivity.image.  "
         "CORRESPONDENCE: one `lmgps` line per subset = gradient plus sensitivity of the real class against the Lean model (lmEvents/lmContribs: event selection by frame and "
         "ranges, batches, subset test, back projection of 1/(row.image+additive)) evaluated exactly in Rat on the rows, additive values and basic views of the real matrix, "
-        "bound 4*n*2^-24*sum|terms|.  Runs in which a known class of defect (stable key) is detected are reported and not compared with the model.  distinct = distinct op lines.",
+        "bound 4*n*2^-24*sum|terms|.  Runs in which a known class of defect (stable key) is detected are reported and not compared with the model.  "
+        "RE-USE OF CACHE FILES: for every case with cache files a second object with recompute_cache = false on the same cache path, given ANOTHER stream and no "
+        "frame definitions, must reproduce the results of the object that wrote the files bitwise; in a quarter of these the second object has "
+        "use_subset_sensitivities = false (one subset: bitwise; several subsets: gradient plus sensitivity and Hessian product bitwise, subset sensitivity = total "
+        "sensitivity / number of subsets against the textbook value, compute_sub_gradient_without_penalty must refuse).  "
+        "NORMALISATION IN LmToProjData (family 3): 'Bin Normalisation type for pre-normalisation' / '... post-normalisation' / 'do pre normalisation' through the "
+        "class's own keymap with a registered table normalisation (get_bin_efficiency from a hash of the bin; every 4th..9th bin unusable: 0, 1e-12 or negative in a third "
+        "of the cases), alone or inside the library's ChainedBinNormalisation; generated scanners 8/12/16 detectors x 1-3 rings, non-TOF and TOF, span 1/3, view mashing, "
+        "trimmed tangential range, uncompressed geometry with N-1 or N/2-1 tangential positions; frames, every kind of batch size, whole stream, num_events_to_store.  "
+        "One `runw` line = one process_data call, answer = the stored floats; the Lean model (processDataW on preStream: get_bin_from_event with do_pre_normalisation, "
+        "do_post_normalisation, get_compression_count as data of the real geometry) is evaluated exactly in Rat and compared with the bound 4*(n+3)*2^-24*sum|terms| "
+        "(n additions to the bin).  Oracle: stored value == sum over the events of the frame of increment/(efficiency of the event's uncompressed bin x compression count "
+        "counted independently over ring pairs and views) resp. increment/efficiency of the output bin, unusable efficiencies and events the decoder rejects add nothing; "
+        "batch sizes give bitwise the same floats; frames of a partition add up.  "
+        "OTHER EVENT CLASSES AND REAL FILES (family 4): events of cylindrical scanners that only know their LOR (library get_LOR + ListEvent::get_bin = "
+        "ProjDataInfo::get_bin(LOR)); BlocksOnCylindrical scanners (4x2, 6x2, 4x3, 8x2, 4x4 crystals, 1-3 rings; ProjDataInfoBlocksOnCylindricalNoArcCorr templates) with "
+        "detector-pair and LOR-only events; SAFIR list-mode files written from the event list (signature, 64-bit records incl. times > 2^32 ms) read by "
+        "CListModeDataSAFIR (directly, and through read_from_file<ListModeData> with a parameter file, template projection data file and crystal map file written by the harness); "
+        "ECAT8 32-bit list-mode files for the Siemens mMR (Interfile header + 32-bit words) read through read_from_file<ListModeData>; LmToProjData on the files via "
+        "set_input_data(filename), every num_segments_in_memory (several passes = save_get_position/set_get_position on the real file), frames, whole stream, "
+        "num_events_to_store.  Oracle: histogram == independent count with get_bin_for_det_pos_pair, the reader's records == the event list (times, prompt/delayed, bins), "
+        "reset(), file histograms == histograms of the synthetic stream of the same events, reader history (file with crystal map, then file without).  "
+        "distinct = distinct op lines.",
         extra)
     chk.assumptions += [
         "event -> bin map (get_bin_for_det_pos_pair) is data for this property (C01)",
         "time marks are integer milliseconds (ListTime unit) and frame boundaries are k/1000. (comparison of the doubles = comparison of the integers)",
         "records are either a time mark or an event (combined records as in CListRecordROOT are not exercised)",
-        "normalisation is the default TrivialBinNormalisation; counts < 2^24 (float exact)",
+        "family 1/2/4: normalisation is the default TrivialBinNormalisation, counts < 2^24 (float exact); family 3: the efficiencies returned by the normalisation "
+        "object and the number of ring pairs / view mashing factor of the template are data taken from the real objects (the oracle counts ring pairs and views itself); "
+        "floating point rounding of the normalised sums is not modelled (forward error bound); the model describes get_bin_from_event / do_post_normalisation as after the "
+        "proposed fixes C14-6 / C14-7 (runs of the unrepaired code on such inputs are recognised, reported with a stable key and not compared)",
+        "BinNormalisationFromProjData / FromAttenuationImage cannot be used with LmToProjData (get_bin_efficiency is not implemented there): the table normalisation of the "
+        "harness and ChainedBinNormalisation are used instead; BinNormalisationPETFromComponents is not exercised here",
+        "CListEventScannerWithDiscreteDetectors<ProjDataInfoGenericNoArcCorr> cannot be instantiated (its get_LOR does not compile for the Generic class): blocks scanners "
+        "are exercised through the harness's event class that calls ProjDataInfoGenericNoArcCorr::get_bin_for_det_pos_pair the same way, and through the SAFIR reader",
+        "real file formats: SAFIR (both constructors, with and without crystal map) and ECAT8 32-bit (Siemens mMR, non-TOF, axial compression 1, maximum ring difference 0..2); "
+        "NeuroLF records, ECAT 962/966, GE, ROOT and PENN formats are not exercised",
         "num_segments_in_memory / num_TOF_bins_in_memory >= 1 or -1 (0 and other negative values make process_data loop forever: not run)",
         "list-mode objective: matrix rows, additive values and the view of the basic bin are data taken from the real ProjMatrixByBinUsingRayTracing / ProjData (C03/C04/C02); "
         "images strictly positive (the max_quotient thresholds of the projection-data class are C05's subject); floating point rounding is not modelled (forward error bound); "
         "the sensitivity, the Hessian product and the value are compared on the implementation only (no Lean model); builds with OpenMP / MPI are not run; "
-        "cache files are written to and read from a scratch directory (recompute_cache = true; re-use of old cache files is not exercised)",
+        "cache files are written to and read from a scratch directory; use_subset_sensitivities = false is exercised on the re-using object only",
     ]
     if audit:
         vlib.proof_coverage(chk, audit, "cd lean && lake build StirVerif.C14.Props Driver.C14 && lake env lean ../build/out/Audit_C14.lean")
